@@ -400,7 +400,7 @@ def run(ctx):
             # binding self-test: a counter value off by one
             evs = [json.loads(x) for x in open(files[0][1])]
             for i, e in enumerate(evs):
-                if e["e"] == "ret" and e["op"] == "rel":
+                if e["e"] == "ret" and e["op"] == "rel" and e["ok"] == 1 and e["val"] >= 0:      # a release that succeeded and whose counter was read back
                     e["val"] += 1
                     break
             p = traces.write(evs[: i + 3], ctx.path("selftest.ndjson"))
